@@ -35,7 +35,8 @@ CONSTANTS MaxId,        \* max_request_id: at most MaxId requests in flight per 
           Reqs,         \* request names
           NConns,       \* connections the pool may open during its life
           MaxFails,     \* failed attempts to open a replacement
-          MaxConnFails  \* socket errors
+          MaxConnFails, \* socket errors
+          Ks            \* BOOLEAN: the session has a keyspace, so _replace selects it on the new connection (a USE round trip)
 
 Conns == 1..NConns
 
@@ -45,7 +46,7 @@ VARIABLES inflight, orph, reg, owed, thr, closed, defunct, signaled,     \* per 
           replacing,  \* _is_replacing
           shutdown,   \* is_shutdown
           sd,         \* progress of the thread inside shutdown(): none, marked, curclosed, done
-          rep,        \* the _replace task: [ph, old, new], ph: none, queued, open, publish, retire
+          rep,        \* the _replace task: [ph, old, new], ph: none, queued, open, use (only with Ks), publish, retire
           opened,     \* connections opened so far (they are 1..opened)
           fails, cfails,
           st,         \* per request: new, picked, borrowed, sent, done, timedout, errored, refused, nohost
@@ -213,7 +214,7 @@ Timeout(r) ==
 (* socket error: defunct, close, error_all_requests; the first errored request's return tells the pool *)
 ConnFails(c, down) ==
     /\ c <= opened /\ ~closed[c]
-    /\ ~(rep.ph = "publish" /\ rep.new = c)
+    /\ ~(rep.ph \in {"use", "publish"} /\ rep.new = c)
     /\ cfails < MaxConnFails
     /\ cfails' = cfails + 1
     /\ IF reg[c] = {}
@@ -242,7 +243,7 @@ ReplaceOpen(ok) ==
     /\ IF ok
        THEN /\ opened < NConns
             /\ opened' = opened + 1
-            /\ rep' = [rep EXCEPT !.ph = "publish", !.new = opened + 1]
+            /\ rep' = [rep EXCEPT !.ph = IF Ks THEN "use" ELSE "publish", !.new = opened + 1]
             /\ UNCHANGED fails
        ELSE /\ fails < MaxFails
             /\ fails' = fails + 1
@@ -250,6 +251,14 @@ ReplaceOpen(ok) ==
             /\ UNCHANGED opened
     /\ act' = A("ReplaceOpen", 0, 0, ok)
     /\ UNCHANGED <<cvars, cur, trash, replacing, shutdown, sd, cfails, st, on>>
+
+(* conn.set_keyspace_blocking(self._keyspace) (512-513): a round trip on the new, not yet published  *)
+(* connection; anything may happen meanwhile, shutdown() included                                    *)
+ReplaceUse ==
+    /\ rep.ph = "use"
+    /\ rep' = [rep EXCEPT !.ph = "publish"]
+    /\ act' = A("ReplaceUse", 0, 0, FALSE)
+    /\ UNCHANGED <<cvars, cur, trash, replacing, shutdown, sd, opened, fails, cfails, st, on>>
 
 (* self._connection = conn (514).                                             *)
 (* INTENDED (C12): a pool that was shut down meanwhile closes the fresh       *)
@@ -312,7 +321,7 @@ Next ==
     \/ \E r \in Reqs, d \in BOOLEAN : Send(r, d)
     \/ \E c \in Conns, q \in Reqs : Respond(c, q)
     \/ \E c \in Conns, d \in BOOLEAN : ConnFails(c, d)
-    \/ ReplaceCheck \/ ReplacePublish \/ ReplaceRetire
+    \/ ReplaceCheck \/ ReplaceUse \/ ReplacePublish \/ ReplaceRetire
     \/ \E ok \in BOOLEAN : ReplaceOpen(ok)
     \/ ShutdownMark \/ ShutdownCloseCur \/ ShutdownCloseTrash
 
@@ -374,4 +383,5 @@ Witness_FailedOldWhileCurrentHealthy ==
 Witness_Repick == ~(act.name = "BorrowTake" /\ st[act.r] = "borrowed" /\ on[act.r] # act.c)
 Witness_InlineShutdown == ~(act.name \in {"ConnFails", "Send"} /\ act.f /\ sd = "done" /\ opened >= 2)
 Witness_QuiescentAllClosed == ~(Quiescent /\ opened >= 2)
+Witness_ShutdownDuringUse == ~(Ks /\ act.name = "ReplacePublish" /\ shutdown /\ sd = "done")
 =============================================================================
